@@ -104,6 +104,8 @@ void arrive(int h, aux::packet p)
 	else vp_assert(i.drop_calls == 0, 31);
 }
 
+void inject_id(int id);
+
 struct checker final : sink
 {
 	explicit checker(int h_) : h(h_) {}
